@@ -418,7 +418,7 @@ func (s *State) assume(t T) {
 	if s.ev != nil {
 		n = s.ev.n + 1
 	}
-	s.ev = &Event{Kind: EvAssume, Text: t.S, prev: s.ev, n: n, Init: inInitPhase}
+	s.ev = &Event{Kind: EvAssume, Text: t.S, prev: s.ev, n: n, Init: inInitPhase, Tag: curTag}
 }
 
 // heap returns the current term of a heap, creating its initial constant.
